@@ -298,8 +298,8 @@ def main(argv=None):
         'property_id': prop, 'tier': tier, 'seed': seed, 'level': 'proof',
         'coverage': {
             'obligations': obligations, 'discharged': discharged,
-            'checker_cmd': 'cd /verif/lean && lake build PyxisVerif.Props.%s && lake env lean PyxisVerif/Audit/%s.lean%s'
-                           % (prop, prop, ' && lake env leanchecker PyxisVerif.Props.' + prop if tier == 'thorough' else ''),
+            'checker_cmd': 'cd /verif/lean && lake build %s && lake env lean PyxisVerif/Audit/%s.lean%s'
+                           % (' '.join(prop_targets), prop, ' && lake env leanchecker ' + ' '.join(prop_targets) if tier == 'thorough' else ''),
             'trusted_base': TRUSTED_BASE + getattr(P, 'TRUSTED_EXTRA', []),
             'theorems': listed, 'axioms': thms,
             'evaluations': len(cases), 'distinct_nontrivial': stats.get('distinct_nontrivial', 0),
